@@ -570,4 +570,37 @@ for tol in (1e-3, 1e-6, 1e-9, 1e-12):
         R.check("text and binary form decode to the same result, also after compression", f"compress {level} with a requested tolerance",
                 {"float_tolerance": tol, "level": level}, lambda tol=tol, level=level: tolerance_case(tol, level))
 
+def string_field_case(values, flavour):
+    """a per-atom string annotation written as an extra field comes back unchanged from every flavour, whatever
+    characters it holds (both quote characters, a line break, a leading semicolon / underscore / hash ...)"""
+    a = build(2, None, [""], [0], [False], False, False, ())
+    n = a.array_length()
+    note = [values[i % len(values)] for i in range(n)]
+    a.set_annotation("note", np.array(note, dtype=object).astype(str))
+    F = pdbx.CIFFile if flavour == "cif" else pdbx.BinaryCIFFile
+    f = F()
+    pdbx.set_structure(f, a, extra_fields=["note"])
+    st = io.StringIO() if flavour == "cif" else io.BytesIO()
+    if flavour == "bcif-compressed":
+        f = pdbx.compress(f)
+    f.write(st)
+    st.seek(0)
+    try:
+        b = pdbx.get_structure(F.read(st), model=1, extra_fields=["note"])
+    except Exception as e:
+        return f"the written file cannot be read back: {type(e).__name__}: {e}"
+    err = same(a, b, ())
+    if err:
+        return err
+    if b.note.tolist() != note:
+        return f"note: wrote {note}, read {b.note.tolist()}"
+    return None
+
+
+for values in (["plain"], ["5' end, \"capped\"", "x"], ["two\nlines", "y"], ["x", "two\nlines"], [";semi", "_under", "#hash"], ["a b", "'q'", '"d"'],
+               ["5' end, \"capped\""], ["both ' and \"", "line\nbreak", "plain"]):
+    for fl in ("cif", "bcif", "bcif-compressed"):
+        R.check("write-read cycle returns an equal structure", f"string extra field {fl}", {"values": values, "flavour": fl},
+                lambda values=values, fl=fl: string_field_case(values, fl))
+
 R.finish()
